@@ -419,7 +419,7 @@ pub(crate) mod kani_verif {
     fn c10_aux_front_n16() {
         check_aux_front::<100>();
     }
-    // @h name=c10_aux_front_24 props=C10,C11 tier=thorough kind=proved cfg=w8 timeout=2400 funcs=HssPrivateKey::get_expanded_aux_data;hss_is_aux_data_used;hss_get_aux_data_len;hss_store_aux_marker contract="same contract for every buffer of length 0..24 (too small for any level: fresh buffers shrink to the marker byte and are ignored; in-use ones go through the MAC check)"
+    // @h name=c10_aux_front_24 props=C10,C11 tier=extended kind=proved cfg=w8 timeout=2400 funcs=HssPrivateKey::get_expanded_aux_data;hss_is_aux_data_used;hss_get_aux_data_len;hss_store_aux_marker contract="same contract for every buffer of length 0..24 (too small for any level: fresh buffers shrink to the marker byte and are ignored; in-use ones go through the MAC check)"
     #[kani::proof]
     #[kani::stub(zeroize::optimization_barrier, no_barrier)]
     #[kani::stub(<[u8; 32] as tinyvec::Array>::default, fast_default)]
